@@ -66,4 +66,11 @@ META = {
    level="Proved: positional kernel and method == ((|ds|+|de|)/(sum of durations))^2 * delta, absolute == [labels differ] * delta, precomputed "
          "kernel reads matrix[c1][c2] with the category index itself (cast modelled exactly), combined kernel == alpha*pos + beta*cat.",
    note="Bounded only: the constructors' class invariant (one delta_empty), label-order independence of ordinal / numerical matrices."),
+ "C12": dict(
+   technique="contract-based deductive verification of Alignment.gamma_k_disorder against a ghost fold written from the statement "
+             "(three nested loop invariants over numerator, denominator and the two 'counted' flags; slice and enumerate desugared exactly)",
+   level="Proved for all alignments, categories and combined parameter sets: the result is the weighted mean (or the two from-code corner "
+         "values) of the fold whose terms are exactly the statement's: weight 1/(k-1)*max(0, 1-alpha*positional) for real pairs, delta_empty "
+         "at weight delta_empty for unit/empty pairs, category filter on either unit; never negative; division safe; TypeError otherwise.",
+   note="Bounded only: GammaResults.gamma_cat / gamma_k. Known finding: gamma_k of an absent category (see known_findings.json)."),
 }
